@@ -464,6 +464,21 @@ func c09Opaque(b *c09Built) bool {
 		}
 		return true
 	}
+	if strings.HasSuffix(t, ".convertedRowGroup") {
+		// a merge with a single non-empty input in another schema hands the conversion of that
+		// input through
+		var only *c09Built
+		n := 0
+		for _, k := range b.kids {
+			if k.rg != nil && k.rg.NumRows() > 0 {
+				only = k
+				n++
+			}
+		}
+		if n == 1 {
+			return c09Opaque(only)
+		}
+	}
 	return !(strings.HasSuffix(t, ".Buffer") || strings.HasSuffix(t, ".FileRowGroup") || strings.HasSuffix(t, ".rowRangeRowGroup") || strings.HasSuffix(t, ".rowGroup"))
 }
 
